@@ -832,6 +832,36 @@ def _defs_of(f: FuncInfo, name: str):
   return out
 
 
+def _top_index(f: FuncInfo, node):
+  cur = node
+  while cur is not None and getattr(cur, "_parent", None) is not f.node:
+    cur = getattr(cur, "_parent", None)
+  if cur is None:
+    return None
+  try:
+    return f.node.body.index(cur)
+  except ValueError:
+    return None
+
+
+def _reaching_defs(f: FuncInfo, use, defs):
+  """The definitions of a local that can reach `use`: those between the last unconditional (top-level) definition before the
+  statement of the use and that statement.  (A helper inlined twice leaves two straight-line definitions of each of its
+  parameters.)"""
+  ui = _top_index(f, use)
+  if ui is None or len(defs) < 2:
+    return defs
+  idx = [(_top_index(f, st), v, st) for v, st in defs]
+  if any(i is None for i, _v, _st in idx):
+    return defs
+  before = [(i, v, st) for i, v, st in idx if i < ui or (i == ui and getattr(st, "_parent", None) is not f.node)]
+  if not before:
+    return defs
+  tops = [i for i, _v, st in before if getattr(st, "_parent", None) is f.node]
+  last = max(tops) if tops else -1
+  return [(v, st) for i, v, st in before if i >= last]
+
+
 def _pick(e, i, depth=0):
   """element i of a tuple-valued expression (distributing over conditional expressions)"""
   if isinstance(e, ast.Tuple) and i < len(e.elts):
@@ -934,7 +964,7 @@ def axis_of(f: FuncInfo, e, depth=0):
     return ("cond", unparse(test), axis_of(f, e.body, depth + 1), axis_of(f, e.orelse, depth + 1))
   if isinstance(e, ast.Name):
     ds = []
-    for v, st in _defs_of(f, e.id):
+    for v, st in _reaching_defs(f, e, _defs_of(f, e.id)):
       if isinstance(v, tuple):
         v = _pick(v[1], v[2])
         if v is None:
@@ -1014,6 +1044,23 @@ def check_axes(ctx, rule="AXIS"):
           dest = "block"
         if tname in ("c_start", "c_end"):
           dest = "inline"
+        if dest is None:
+          # an intermediate local: the axis is that of the local it flows into before it is assigned again
+          ui = _top_index(comp, par)
+          flows = set()
+          if ui is not None:
+            for st2 in comp.node.body[ui + 1:]:
+              if isinstance(st2, ast.Assign) and len(st2.targets) == 1 and unparse(st2.targets[0]) == tname:
+                break
+              for a2 in ast.walk(st2):
+                if isinstance(a2, ast.Assign) and len(a2.targets) == 1 and isinstance(a2.targets[0], ast.Name) and a2.targets[0].id in DEST_AXIS \
+                    and any(isinstance(x2, ast.Name) and x2.id == tname for x2 in ast.walk(a2.value)):
+                  flows.add(DEST_AXIS[a2.targets[0].id])
+          if len(flows) == 1:
+            dest = flows.pop()
+          elif name not in PROCESSOR_DEST and any(a in (H, W) for a in (a_pct,)):
+            ctx.undecide(rule, f"{key}: the result is held in `{tname}`, whose destination axis the rule does not follow")
+            continue
       if dest is None and name in PROCESSOR_DEST:
         dest = PROCESSOR_DEST[name]
       problems = []
